@@ -262,6 +262,17 @@ impl Listener {
         l.set_nonblocking(true).ok();
         Listener { port: p, l }
     }
+    /// A listener whose accepted sockets have a small receive buffer (set on the listening socket, so that the window is
+    /// small from the first segment on): what is sent to a target that reads late waits in the sender's queue.
+    pub fn bind_small_rcvbuf(rcvbuf: u32) -> Listener {
+        use std::os::fd::AsRawFd;
+        let l = Listener::bind();
+        let v: libc::c_int = rcvbuf as libc::c_int;
+        unsafe {
+            libc::setsockopt(l.l.as_raw_fd(), libc::SOL_SOCKET, libc::SO_RCVBUF, &v as *const _ as *const libc::c_void, std::mem::size_of::<libc::c_int>() as libc::socklen_t);
+        }
+        l
+    }
     pub fn bind_at(p: u16) -> Option<Listener> {
         let l = TcpListener::bind(SocketAddrV4::new(Ipv4Addr::LOCALHOST, p)).ok()?;
         l.set_nonblocking(true).ok();
